@@ -79,6 +79,8 @@ class Env:
 
     def lookup_env(self, name):
         e = self
+        if e.cls_env and name in e.vars:
+            return e  # code directly in a class body sees the class namespace
         while e is not None:
             if name in e.vars and not e.cls_env:
                 return e
@@ -295,6 +297,9 @@ class Interp:
         self.loop_contracts = {}  # (qualname, ordinal) -> dict(inv=..., decreases=..., havoc=[...])
         self.on_loop = None
         self.call_hook = None  # fn(it, callee, args, kwargs) -> NOTSET or value (contracts replacing bodies)
+        self.attr_read_hook = None  # fn(it, obj, name): before a field of an interpreted object is read
+        self.attr_write_hook = None  # fn(it, obj, name, old, new): performs the store itself
+        self.list_hook = None  # fn(it, listobj, op, args): before a mutation of a list
         self.stmt_hook = None
         self.current_fn = []
         from . import natives
@@ -452,6 +457,8 @@ class Interp:
             for x in v.items:
                 t = z3.Concat(t, z3.Unit(self.to_val(x)))
             return z3.Function("seq2val", smt.SeqVal, smt.Val)(z3.simplify(t))
+        if isinstance(v, Opaque) and v.kind == "symref":
+            return v.attrs["term"]
         if isinstance(v, (Obj, Opaque, Closure, ClassRef, NativeClass, DictObj, SetObj)):
             oid = getattr(v, "oid", None)
             if oid is None:
@@ -701,6 +708,8 @@ class Interp:
 
     def get_attr(self, v, name):
         if isinstance(v, Obj):
+            if self.attr_read_hook is not None:
+                self.attr_read_hook(self, v, name)
             ca = self.class_lookup(v.cls, name)
             if isinstance(ca, PropertyVal):
                 if ca.fget is None:
@@ -767,6 +776,9 @@ class Interp:
                 if ca.fset is None:
                     raise PyExc(self.make_exc("AttributeError", f"can't set attribute {name}"))
                 self.call(ca.fset, [v, val], {})
+                return
+            if self.attr_write_hook is not None:
+                self.attr_write_hook(self, v, name, v.fields.get(name, NOTSET), val)
                 return
             v.fields[name] = val
             return
@@ -1126,6 +1138,18 @@ class Interp:
                 if isinstance(obs, Opaque) and obs.kind == "observer":
                     self.world.trace(obs.name).chunk(it.term)
                     self.world.events.append(("down", obs.name, "on_next*", it.term))
+                    return
+        if isinstance(it, ListObj) and it.symbolic and it.elem.startswith("ref:") and hasattr(self.world, "broadcast"):
+            # `for o in <symbolic list of objects>: o.m(args)` == one broadcast event over the whole list
+            b = st.body
+            if (len(b) == 1 and isinstance(b[0], ast.Expr) and isinstance(b[0].value, ast.Call)
+                    and isinstance(b[0].value.func, ast.Attribute) and isinstance(b[0].value.func.value, ast.Name)
+                    and isinstance(st.target, ast.Name) and b[0].value.func.value.id == st.target.id
+                    and not st.orelse and not b[0].value.keywords):
+                argnames = {n.id for a in b[0].value.args for n in ast.walk(a) if isinstance(n, ast.Name)}
+                if st.target.id not in argnames:
+                    args = self.eval_elts(b[0].value.args, env)
+                    self.world.broadcast(self, it, b[0].value.func.attr, args)
                     return
         if isinstance(it, IterVal):
             # consume the iterator step by step (shared position)
